@@ -3,6 +3,7 @@ package annotations
 import (
 	"go/ast"
 	"go/token"
+	"go/types"
 	"regexp"
 	"strings"
 
@@ -539,7 +540,15 @@ func ReadAllAnnotations(
 		// Build import map for this file
 		imports := &util.ImportMap{}
 		for _, imp := range file.Imports {
-			imports.Add(imp, pass.Pkg)
+			// Record the declared name of the *imported* package (it may differ from the
+			// last element of its path), not the name of the package under analysis
+			var imported *types.Package
+			if pass.TypesInfo != nil {
+				if pkgName := pass.TypesInfo.PkgNameOf(imp); pkgName != nil {
+					imported = pkgName.Imported()
+				}
+			}
+			imports.Add(imp, imported)
 		}
 
 		for _, n := range file.Decls {
